@@ -9,52 +9,30 @@ import FitProofs.DecodeEncode
 namespace Fit
 open Fit.Crc
 
-/-- the header phase on a 14-byte header declaring `L` record bytes, whatever follows -/
-theorem frame_header_step' (P : Profile) (m : Mode) (g : Globals) (proto profile L : Nat) (R : Bytes) (stop : Stop)
-    (hp : proto < 256) (hp2 : proto / 16 ≤ protoMajorMax) (cont : DecSt → HP) :
-    runSpec (decodeHeader (DecSt.init g) cont)
-        { rest := 14 :: (hdrTail proto profile L ++ R), stop := stop, taken := 0 } =
-      runSpec (cont (afterHeader g proto profile L)) { rest := R, stop := stop, taken := 14 } := by
-  have h13 := hdrTail_length proto profile L
-  rw [decodeHeader_run_ok (DecSt.init g) (afterHeader g proto profile L) cont _ 14 (Or.inr rfl)
-    (by simp only [List.length_cons, List.length_append, h13]; omega)
-    (by rfl)
-    (by
-      have e1 : (14 :: (hdrTail proto profile L ++ R)).take 1 = [14] := rfl
-      have e2 : ((14 :: (hdrTail proto profile L ++ R)).drop 1).take (14 - 1) = hdrTail proto profile L := by
-        simp only [List.drop_succ_cons, List.drop_zero]
-        exact List.take_left' (by rw [h13])
-      simp only at e1 e2 ⊢
-      rw [e1, e2]
-      exact headerCheck_frame g proto profile L hp hp2)]
-  have hdrop : (14 :: (hdrTail proto profile L ++ R)).drop 14 = R := by
-    simp only [List.drop_succ_cons]
-    exact List.drop_left' (by rw [h13])
-  simp only [hdrop, Nat.zero_add]
-
-/-- a frame cut after `k ≥ 14` bytes: the whole header, then a prefix of the record bytes -/
-theorem frameBytes_take (proto profile : Nat) (recs : Bytes) (k : Nat) (hk : k ≤ recs.length) :
-    (frameBytes proto profile recs).take (14 + k) = 14 :: (hdrTail proto profile recs.length ++ recs.take k) := by
+/-- a frame cut after the whole header and `j` record bytes -/
+theorem frameBytes_take (k : HdrKind) (proto profile : Nat) (recs : Bytes) (j : Nat) (hj : j ≤ recs.length) :
+    (frameBytesK k proto profile recs).take (k.size + j) = u8 k.size :: (hdrTail k proto profile recs.length ++ recs.take j) := by
   rw [frameBytes_split]
-  have h13 := hdrTail_length proto profile recs.length
-  have e : 14 + k = (13 + k) + 1 := by omega
+  have h13 := hdrTail_length k proto profile recs.length
+  have hsz := k.size_cases
+  have e : k.size + j = ((k.size - 1) + j) + 1 := by omega
   rw [e, List.take_succ_cons]
   congr 1
   rw [List.take_append, h13]
-  have : List.take (13 + k) (hdrTail proto profile recs.length) = hdrTail proto profile recs.length :=
+  have : List.take (k.size - 1 + j) (hdrTail k proto profile recs.length) = hdrTail k proto profile recs.length :=
     List.take_of_length_le (by omega)
   rw [this]
   congr 1
-  have e2 : 13 + k - 13 = k := by omega
-  rw [e2, List.take_append_of_le_length hk]
+  have e2 : k.size - 1 + j - (k.size - 1) = j := by omega
+  rw [e2, List.take_append_of_le_length hj]
 
-/-- **Whole-file form of the partial-File theorem.** A 14-byte header declaring `L` record bytes;
+/-- **Whole-file form of the partial-File theorem.** A header (of any of the three kinds) declaring `L` record bytes;
     then the bytes of a file_id definition and data record and of further complete records
     (`done`); then only a strict prefix of the next record `it`, after which the stream ends or the
     reader fails.  If the item machine accepts the complete records, `Decode` stops with an early
     exit (an error — never a success) whose File and accumulators are exactly the item machine's
     after the complete records. -/
-theorem decode_cut_partial (P : Profile) (o : Opts) (g : Globals) (proto profile : Nat)
+theorem decode_cut_partial (P : Profile) (o : Opts) (k : HdrKind) (g : Globals) (proto profile : Nat)
     (d0 : DefMsg) (b0 : Bool) (fs dev : List Bytes) (done : List Item) (it : Item) (more : List Item) (j : Nat)
     (stop : Stop) (st1 : DecSt)
     (hp : proto < 256) (hp2 : proto / 16 ≤ protoMajorMax)
@@ -62,21 +40,21 @@ theorem decode_cut_partial (P : Profile) (o : Opts) (g : Globals) (proto profile
     (L : Nat) (hL : L = (serialize (.defn d0 b0 :: .data d0.localT fs dev :: (done ++ it :: more))).length)
     (hlen : L < 4294967296)
     (hfit : ItemsFitD P (List.replicate 16 none) (.defn d0 b0 :: .data d0.localT fs dev :: (done ++ it :: more)))
-    (hrun : runItems P (afterHeader g proto profile L).hdr g (.defn d0 b0 :: .data d0.localT fs dev :: done) = .ok st1)
+    (hrun : runItems P (afterHeader k g proto profile L).hdr g (.defn d0 b0 :: .data d0.localT fs dev :: done) (afterHeader k g proto profile L).crc = .ok st1)
     (hj : j < (serializeItem it).length) :
     ∃ e : ErrExit,
-      (decodeSpec P o .full g (14 :: (hdrTail proto profile L ++
+      (decodeSpec P o .full g (u8 k.size :: (hdrTail k proto profile L ++
         (serialize (.defn d0 b0 :: .data d0.localT fs dev :: done) ++ (serializeItem it).take j))) stop).1 =
         finalize o e.toOutcome ∧ e.st.fileOf = st1.fileOf := by
   -- what the item machine did on the complete records
   unfold runItems at hrun
   simp only at hrun
-  cases h1 : stepItem P (recState0 P g proto profile L) (.defn d0 b0) with
+  cases h1 : stepItem P (recState0 P k g proto profile L) (.defn d0 b0) with
   | stop o1 =>
-    have : stepItem P { DecSt.init g with hdr := (afterHeader g proto profile L).hdr, file := some { hdr := (afterHeader g proto profile L).hdr, fileId := zeroFileId P }, unkInit := true } (.defn d0 b0) = .stop o1 := h1
+    have : stepItem P { DecSt.init g with hdr := (afterHeader k g proto profile L).hdr, crc := (afterHeader k g proto profile L).crc, file := some { hdr := (afterHeader k g proto profile L).hdr, fileId := zeroFileId P }, unkInit := true } (.defn d0 b0) = .stop o1 := h1
     rw [this] at hrun; cases hrun
   | ok sa =>
-    have e1 : stepItem P { DecSt.init g with hdr := (afterHeader g proto profile L).hdr, file := some { hdr := (afterHeader g proto profile L).hdr, fileId := zeroFileId P }, unkInit := true } (.defn d0 b0) = .ok sa := h1
+    have e1 : stepItem P { DecSt.init g with hdr := (afterHeader k g proto profile L).hdr, crc := (afterHeader k g proto profile L).crc, file := some { hdr := (afterHeader k g proto profile L).hdr, fileId := zeroFileId P }, unkInit := true } (.defn d0 b0) = .ok sa := h1
     rw [e1] at hrun
     simp only at hrun
     cases h2 : stepItem P sa (.data d0.localT fs dev) with
@@ -95,7 +73,7 @@ theorem decode_cut_partial (P : Profile) (o : Opts) (g : Globals) (proto profile
           rw [hinit] at hrun
           simp only at hrun
           obtain ⟨hokd0, hokdr, hfitrest⟩ := hfit
-          have hd1 := stepItem_defs P _ sa _ (ItemOKD.toOK (recState0 P g proto profile _) _ hokd0) h1
+          have hd1 := stepItem_defs P _ sa _ (ItemOKD.toOK (recState0 P k g proto profile _) _ hokd0) h1
           have hok2 : ItemOK sa (.data d0.localT fs dev) := by
             apply ItemOKD.toOK
             rw [hd1]; exact hokdr
@@ -112,7 +90,7 @@ theorem decode_cut_partial (P : Profile) (o : Opts) (g : Globals) (proto profile
           have hLsum : L = (serializeItem (.defn d0 b0)).length + (serializeItem (.data d0.localT fs dev)).length +
               (serialize done).length + (serializeItem it).length + (serialize more).length := by
             rw [hL, hser]; simp only [List.length_append]; omega
-          have hn1 := stepItem_n P _ sa _ (ItemOKD.toOK (recState0 P g proto profile L) _ hokd0) h1
+          have hn1 := stepItem_n P _ sa _ (ItemOKD.toOK (recState0 P k g proto profile L) _ hokd0) h1
           have hn2 := stepItem_n P sa sb _ hok2 h2
           have hh1 := stepItem_hdr P _ sa _ h1
           have hh2 := stepItem_hdr P sa sb _ h2
@@ -120,15 +98,15 @@ theorem decode_cut_partial (P : Profile) (o : Opts) (g : Globals) (proto profile
             rw [hh2, hh1]
             show L % 4294967296 = L
             exact Nat.mod_eq_of_lt hlen
-          have hn0 : (recState0 P g proto profile L).n = 0 := rfl
+          have hn0 : (recState0 P k g proto profile L).n = 0 := rfl
           have hserd : serialize (.defn d0 b0 :: .data d0.localT fs dev :: done) =
               serializeItem (.defn d0 b0) ++ (serializeItem (.data d0.localT fs dev) ++ serialize done) := by
             rw [serialize_cons, serialize_cons]
           -- the data phase stops inside the cut record
           have hD : ∀ fe : Nat, ∃ e : ErrExit,
-              (runSpecD L (recordsProg P .full (recState0 P g proto profile L)) 0
+              (runSpecD L (recordsProg P .full (recState0 P k g proto profile L)) 0
                 { rest := serialize (.defn d0 b0 :: .data d0.localT fs dev :: done) ++ (serializeItem it).take j,
-                  stop := stop, taken := 14, frameEnd := fe }).1 = .inl e ∧ e.st.fileOf = st1.fileOf := by
+                  stop := stop, taken := k.size, frameEnd := fe }).1 = .inl e ∧ e.st.fileOf = st1.fileOf := by
             intro fe
             unfold recordsProg
             rw [run_parseFileIdMsg_ok P L _ d0 b0 hwf0 hg hkn fs dev _ sa sb 0 _ (serialize done ++ (serializeItem it).take j)
@@ -146,19 +124,19 @@ theorem decode_cut_partial (P : Profile) (o : Opts) (g : Globals) (proto profile
           unfold decodeSpec
           simp only
           unfold decodeProg
-          rw [frame_header_step' P .full g proto profile L _ stop hp hp2]
+          rw [frame_header_step' P .full k g proto profile L _ stop hp hp2]
           simp only [runSpec]
-          have hlim : (afterHeader g proto profile L).hdr.dataSize = L := Nat.mod_eq_of_lt hlen
+          have hlim : (afterHeader k g proto profile L).hdr.dataSize = L := Nat.mod_eq_of_lt hlen
           rw [hlim]
-          have hst0 : ({ afterHeader g proto profile L with
-              file := some { hdr := (afterHeader g proto profile L).hdr, fileId := zeroFileId P },
-              unkInit := true } : DecSt) = recState0 P g proto profile L := rfl
+          have hst0 : ({ afterHeader k g proto profile L with
+              file := some { hdr := (afterHeader k g proto profile L).hdr, fileId := zeroFileId P },
+              unkInit := true } : DecSt) = recState0 P k g proto profile L := rfl
           rw [hst0]
-          obtain ⟨e, he, hfe⟩ := hD (14 + L)
+          obtain ⟨e, he, hfe⟩ := hD (k.size + L)
           refine ⟨e, ?_, hfe⟩
-          generalize runSpecD L (recordsProg P .full (recState0 P g proto profile L)) 0
+          generalize runSpecD L (recordsProg P .full (recState0 P k g proto profile L)) 0
             { rest := serialize (.defn d0 b0 :: .data d0.localT fs dev :: done) ++ (serializeItem it).take j,
-              stop := stop, taken := 14, frameEnd := 14 + L } = r at he
+              stop := stop, taken := k.size, frameEnd := k.size + L } = r at he
           obtain ⟨ro, rn, rs⟩ := r
           simp only at he
           subst he
